@@ -178,11 +178,28 @@ def theorems_in(lean_file):
 FORBIDDEN = re.compile(r'\bsorry\b|\badmit\b|^axiom |native_decide|bv_decide|implemented_by|\bunsafe |maxHeartbeats 0')
 
 
-def grep_forbidden():
-    hits = []
-    for p in walk(os.path.join(LEAN, 'Precis')) + [os.path.join(LEAN, 'Driver.lean')]:
-        if not p.endswith('.lean'):
+def transitive_imports(root_module):
+    seen = set()
+    todo = [root_module]
+    while todo:
+        m = todo.pop()
+        if m in seen:
             continue
+        path = os.path.join(LEAN, *m.split('.')) + '.lean'
+        if not os.path.exists(path):
+            continue
+        seen.add(m)
+        with open(path) as f:
+            for line in f:
+                mm = re.match(r'^import (Precis\S*|Driver)', line)
+                if mm:
+                    todo.append(mm.group(1))
+    return [os.path.join(LEAN, *m.split('.')) + '.lean' for m in sorted(seen)]
+
+
+def grep_forbidden(pid):
+    hits = []
+    for p in sorted(set(transitive_imports(f'Precis.Props.{pid}') + transitive_imports('Driver'))):
         in_block = False
         with open(p) as f:
             for i, line in enumerate(f, 1):
@@ -257,7 +274,7 @@ def prove(pid, extra_targets=()):
     if r.returncode != 0 or missing:
         res['failed'] = missing or ['<audit failed>']
         res['build_log'] += '\n' + text[-3000:]
-    hits = grep_forbidden()
+    hits = grep_forbidden(pid)
     if hits:
         res['forbidden'] = hits
     res['wall_s'] = time.time() - t0
